@@ -202,6 +202,7 @@ const ruleSingle = "explicit-state BFS to closure over {insert,delete} x keys x 
 
 func C04(run *report.Run) {
 	runSingle(run, "C04", StructConfigs(run.Thorough(), []string{"none", "big"}, bothFormats), func(*world.Config) explore.Monitor { return &c04Mon{} }, stdOps)
+	c04FaultHistories(run)
 	run.Rule = ruleSingle + "; oracle: Root == root of the independently built canonical tree of the entries the tree holds"
 }
 
